@@ -363,7 +363,10 @@ FOR_LOOP:
 			// NOTE: we can probably make this more efficient, but note that calling
 			// first.Hash() doesn't verify the tx contents, so MakePartSet() is
 			// currently necessary.
-			err := state.Validators.VerifyCommitLight(
+			// NOTE: all signatures are verified, not just +2/3: second.LastCommit is
+			// stored as the seen commit below, and consensus rebuilds its LastCommit
+			// from it when it takes over.
+			err := state.Validators.VerifyCommit(
 				chainID, firstID, first.Height, second.LastCommit)
 
 			if err == nil {
